@@ -145,7 +145,7 @@ plan = {
   {"name": "hb_policy", "src": "hb_policy.c", "env": ["ctx", "list_wrap"], "tus": [], "unwind": 14, "unwindset": ["Rule_verify.0:14"], "timeout": 300, "object_bits": 12,
    "functions": ["Rule_verify", "Policy_verifySignature", "internalRules (all nested rule tables of the internal policy)", "KSI_VerificationContext_init", "KSI_RuleVerificationResult_init"],
    "bound": "all fact vectors: 5 presence facts x 21 conditions in {holds, violated, uncomputable} x arbitrary status / error code of an uncomputable rule; well-formed presence combinations"},
-  {"name": "ha_chains", "src": "ha_chains.c", "env": ENV, "tus": TUS, "unwind": 6, "timeout": 300, "object_bits": 12,
+  {"name": "ha_chains", "src": "ha_chains.c", "env": ENV, "tus": TUS, "unwind": 6, "timeout": 900, "object_bits": 12,
    "functions": ["KSI_VerificationRule_AggregationHashChainIndexContinuation", "KSI_VerificationRule_AggregationHashChainIndexConsistency", "KSI_VerificationRule_AggregationHashChainTimeConsistency",
                  "KSI_VerificationRule_AggregationChainHashAlgorithmVerification", "KSI_VerificationRule_AggregationChainInputHashAlgorithmVerification", "KSI_VerificationRule_AggregationChainInputHashVerification (no RFC3161 record)",
                  "KSI_AggregationHashChain_calculateShape", "KSI_checkHashAlgorithmAt", "KSI_Signature_getSigningTime", "KSI_Signature_getDocumentHash", "rfc3161_verifyChainIndex", "rfc3161_verifyAggrTime",
@@ -153,18 +153,18 @@ plan = {
                  "KSI_VerificationRule_SignatureDoesNotContainPublication", "KSI_VerificationRule_SignaturePublicationRecordExistence", "KSI_VerificationRule_CalendarAuthenticationRecordDoesNotExist", "KSI_VerificationRule_CalendarAuthenticationRecordExistence"],
    "bound": "shapes: 1-3 chains x 1-3 links x chain index lengths 1-3 (thorough 1-4) incl. non-continuing length patterns x RFC3161 record (index length equal / different) x calendar chain with / without aggregation time x publication / auth record; symbolic: all 64-bit times and indices, link directions, algorithm ids in the digest-length class, hash_id high 32 bits (instances *_hi)",
    "instances": chains_q, "thorough": {"instances": chains_t, "timeout": 900}},
-  {"name": "ha_consistency", "src": "ha_consistency.c", "env": ENV, "global_defines": ["HM_LOG_MAX=72", "HM_REC_MAX=9"], "tus": TUS + ["tlv_element", "fast_tlv"], "unwind": 6, "timeout": 400, "object_bits": 12,
+  {"name": "ha_consistency", "src": "ha_consistency.c", "env": ENV, "global_defines": ["HM_LOG_MAX=72", "HM_REC_MAX=9"], "tus": TUS + ["tlv_element", "fast_tlv"], "unwind": 6, "timeout": 900, "object_bits": 12,
    "functions": ["KSI_VerificationRule_AggregationHashChainConsistency", "KSI_VerificationRule_CalendarHashChainInputHashVerification", "initAggregationOutputHash", "KSI_AggregationHashChain_aggregate",
                  "KSI_HashChain_aggregate", "aggregateChain", "dataHasher_addLinkImprint", "KSI_DataHash_equals", "KSI_DataHasher_add", "KSI_DataHasher_close", "KSI_TlvElement_serialize"],
    "bound": "shapes: 1-3 chains x 1-2 links (thorough up to 3) x sibling kinds imprint / legacy id / metadata x chain algorithms SHA-1 / SHA2-256 / RIPEMD-160 (+ unsupported id 3, ids beyond 32 bit) x calendar chain present; symbolic: directions, 64-bit level corrections, all imprint bytes, docAggrLevel",
    "instances": cons_q, "thorough": {"instances": cons_t, "timeout": 1500}},
-  {"name": "ha_calendar", "src": "ha_calendar.c", "env": ENV, "tus": TUS + ["publicationsfile"], "unwind": 7, "timeout": 400, "object_bits": 12, "solver": "kissat",
+  {"name": "ha_calendar", "src": "ha_calendar.c", "env": ENV, "tus": TUS + ["publicationsfile"], "unwind": 7, "timeout": 900, "object_bits": 12, "solver": "kissat",
    "functions": ["KSI_VerificationRule_CalendarHashChainAggregationTime", "KSI_VerificationRule_CalendarHashChainRegistrationTime", "KSI_CalendarHashChain_calculateAggregationTime", "calculateCalendarAggregationTime", "highBit",
                  "KSI_VerificationRule_CalendarChainHashAlgorithmObsoleteAtPubTime", "calendarChainAggrAlgorithmState", "getNextLink", "wasObsoleteAt", "KSI_VerificationRule_SignaturePublicationRecordPublicationTime",
                  "KSI_VerificationRule_CalendarAuthenticationRecordAggregationTime"],
    "bound": "calendar chains of 1-3 links (thorough 4), aggregation time element present / absent, publication or auth record; symbolic: 64-bit publication / aggregation / record times, link directions, sibling algorithm ids",
    "instances": cal_q, "thorough": {"instances": cal_t, "timeout": 1500}},
-  {"name": "ha_calroot", "src": "ha_calroot.c", "env": ENV, "global_defines": ["HM_LOG_MAX=72", "HM_REC_MAX=4"], "tus": TUS + ["publicationsfile"], "unwind": 6, "timeout": 400, "object_bits": 12,
+  {"name": "ha_calroot", "src": "ha_calroot.c", "env": ENV, "global_defines": ["HM_LOG_MAX=72", "HM_REC_MAX=4"], "tus": TUS + ["publicationsfile"], "unwind": 6, "timeout": 900, "object_bits": 12,
    "functions": ["KSI_VerificationRule_SignaturePublicationRecordPublicationHash", "KSI_VerificationRule_CalendarAuthenticationRecordAggregationHash", "KSI_CalendarHashChain_aggregate", "KSI_HashChain_aggregateCalendar",
                  "aggregateChain (calendar mode)", "KSI_DataHash_equals"],
    "bound": "calendar chains of 1-3 links (thorough 4) with concrete directions and SHA-1 / SHA2-256 / RIPEMD-160 operands; symbolic: all imprint bytes, the record's algorithm id within its length class",
